@@ -314,7 +314,7 @@ func genOp(r *rand.Rand) opIn {
 }
 
 func gen(r *rand.Rand, tier string, i int) input {
-	n := 1 + r.IntN(3)
+	n := 1 + r.IntN(4)
 	ops := make([]opIn, n)
 	for j := range ops {
 		ops[j] = genOp(r)
